@@ -23,9 +23,41 @@ BUDGET = {"quick": 9000, "thorough": 300000}
 META = re.compile(r"[<>&\"']")
 
 
-def strategy(tier):
+EDGE_CHARS = ["\x01", "\x0b", "\x1f", "\ufffe", "\uffff", "\x00", "\x08", "\x0c"]
+EDGE_HEADERS = ["bind::1x", "bind::a b", "body::", "body::x y", "instance::9", "bind::foo:bar", "body::zz:q", "instance::nope:x", "bind::a:b:c"]
+EDGE_SETTINGS = ["attribute::", "attribute::p:q", "attribute::1a", "attribute::a b", "attribute::und:x"]
+
+
+@st.composite
+def _cases(draw):
     P = dict(gen.PROFILES["broad"], settings="some", p_attr_override=0.08, p_tag_names=0.04)
-    return st.builds(lambda f, pretty: {"form": f, "pretty": pretty}, gen.form_strategy(P), st.booleans())
+    g = gen.G(draw, P)
+    form = gen.build_form(draw, P, g=g)
+    edge = None
+    if g.p("_", 0.08):
+        # edge probes: inputs a user can type that XML cannot carry as they are; the outcome must be a well-formed result or a rejection
+        qs = [n for n, _ in model.walk(form["nodes"]) if n["k"] == "q" and n["c"].get("type", "").split(" ")[0] in ("text", "integer", "note", "select_one")]
+        kind = g.pick(["char", "header", "setting"])
+        if kind == "char" and qs:
+            n = g.pick(qs)
+            cols = [k for k in n["c"] if k.split("::")[0] in ("label", "hint", "constraint_message", "default")] or ["label"]
+            col = g.pick(cols)
+            n["c"][col] = (n["c"].get(col) or "t") + g.pick(EDGE_CHARS) + "z"
+            edge = "illegal-char"
+        elif kind == "header" and qs:
+            g.pick(qs)["c"][g.pick(EDGE_HEADERS)] = "v"
+            edge = "attribute-header"
+        else:
+            form.setdefault("settings", {})[g.pick(EDGE_SETTINGS)] = "v"
+            edge = "attribute-setting"
+    c = {"form": form, "pretty": g.p("_", 0.5)}
+    if edge:
+        c["edge"] = edge
+    return c
+
+
+def strategy(tier):
+    return _cases()
 
 
 def expected_form_id(form):
@@ -103,8 +135,12 @@ def evaluate(case) -> Outcome:
         out.label("outcome:crash:" + crash_sig(res))
         return out
     if status == "rejected":
+        if case.get("edge"):
+            out.label("edge:" + case["edge"] + ":rejected")
         out.label("outcome:rejected:" + common.err_class(res))
         return out
+    if case.get("edge"):
+        out.label("edge:" + case["edge"] + ":accepted")
     out.label("outcome:accepted", "pretty" if pretty else "compact")
     check_xform(out, res.xform, form, "pretty" if pretty else "compact")
     has_container = any(n["k"] in ("g", "r") for n, _ in model.walk(form["nodes"]))
